@@ -350,7 +350,7 @@ class Hybrid(Contract):
             out.append(('same-number-of-clusters-as-kcenters', k == L.len(V['result'].center_indices)))
         else:
             from enspara.cluster import kcenters as KCm
-            r0 = KCm.kcenters(X, A['distance_method'], n_clusters=A['n_clusters'], dist_cutoff=A['dist_cutoff'])
+            r0 = KCm.kcenters(X, A['distance_method'], n_clusters=A['n_clusters'], dist_cutoff=A['dist_cutoff'], init_centers=A.get('init_centers'))
             out.append(('never-worse-than-kcenters', L.rle(msq(L, D), msq(L, r0.distances))))
             out.append(('same-number-of-clusters-as-kcenters', k == len(r0.center_indices)))
         return out
